@@ -10,6 +10,6 @@ import (
 func init() {
 	c08.RedisCfgFault = redisCfgFault
 	registry["C08"] = entry{run: c08.Run, replay: func(r *monitor.Run, d json.RawMessage) { c08.Replay(r, d) }, level: "exploration",
-		rule: "cases = cross product (complete in thorough, one of every kind in quick) of will settings (QoS, retain, delay 0/1/2 s, v5 properties, v3.1/v3.1.1/v5) x way the connection ends (DISCONNECT 0x00, DISCONNECT 0x04, socket close, malformed packet, keep-alive timeout, take-over with clean start 0/1, server-side Close, TerminateSession) x session expiry 0/1/5 s x re-attachment (never / before the delay / after it / clean start before it); an independent QoS2 Retain-As-Published subscriber and the retained store are observed; publication time is measured from the broker's OnClosed timestamp and decided only outside a 400 ms margin, timing verdicts must recur on re-execution. Every case is non-trivial; distinct by parameters.",
+		rule: "cases = cross product (complete in thorough, one of every kind in quick) of will settings (QoS, retain, delay 0/1/2 s, v5 properties, v3.1/v3.1.1/v5) x way the connection ends (DISCONNECT 0x00, DISCONNECT 0x04, socket close, malformed packet, keep-alive timeout, take-over with clean start 0/1, server-side Close, TerminateSession) x session expiry 0/1/5 s x re-attachment (never / before the delay / after it / clean start before it); an independent QoS2 Retain-As-Published subscriber and the retained store are observed; publication time is measured from the broker's OnClosed timestamp and decided only outside a 400 ms margin, timing verdicts must recur on re-execution. Every case is non-trivial; distinct by parameters. Plus: DISCONNECT queued behind a busy packet handler; a Clean Start re-attach while redis refuses the DEL of the old session's queue.",
 		assumptions: []string{"real time with whole-second intervals and 400 ms margins", "bounded progress: the will must arrive within delay + 5 s", "take-over with clean start 0 counts as re-attachment before the delay when the delay is > 0"}}
 }
